@@ -92,6 +92,32 @@ def run(chk):
         chk.count(1, key=("shared-kmeans-trainer",))
         if not same(g1, g2):
             chk.fail("two GMMs initialised through the same k-means trainer object (integer random_state) differ: the trainer carries state from the first fit", ctx)
+        # ---- one configuration dict (ubm_kwargs) shared by two factor-analysis machines with different seeds: the second one trains as if alone
+        if rd % 2 == 0:
+            ya = np.repeat(np.arange(3), 8)
+            Xa = g.uniform(-3.0, 3.0, size=(24, 2)) + g.uniform(-1.0, 1.0, size=(3, 2))[ya]
+            kw0 = dict(n_gaussians=2, max_fitting_steps=2, convergence_threshold=None, update_variances=True)
+            for kind in ("isv", "jfa"):
+                def fa_fit(sd_, kwargs):
+                    cls = em.ISVMachine if kind == "isv" else em.JFAMachine
+                    extra = {} if kind == "isv" else {"r_V": 1}
+                    mm = cls(r_U=1, em_iterations=1, ubm_kwargs=kwargs, random_state=sd_, **extra)
+                    mm.fit_using_array(Xa, ya)
+                    return np.concatenate([np.ravel(mm.U), np.ravel(mm.D), np.ravel(mm.ubm.means)])
+                shared = dict(kw0)
+                try:
+                    fa_fit(3, shared)
+                    after_other = fa_fit(seed % 1000 + 7, shared)
+                    alone = fa_fit(seed % 1000 + 7, dict(kw0))
+                except Exception as e:
+                    chk.fail("%s.fit_using_array with ubm_kwargs raises %r" % (kind.upper(), e), dict(ctx, trainer=kind))
+                    continue
+                chk.count(1, key=("shared-ubm_kwargs", kind))
+                if not same(after_other, alone):
+                    chk.fail("%s trained from arrays with a ubm_kwargs dict that had configured another machine (another seed) before differs from the same training alone"
+                             % kind.upper(), dict(ctx, trainer=kind))
+                if shared != kw0:
+                    chk.fail("%s.fit_using_array modifies the caller's ubm_kwargs dict: %r" % (kind.upper(), shared), dict(ctx, trainer=kind))
         # ---- sample order (explicit initialisation where the initialiser itself is not under test)
         perm = g.permutation(len(X))
         k1, _, _ = kt.run_kfit(init, X, None, cap=3)
